@@ -951,3 +951,212 @@ theorem hasNestedOpen_eq (v : List UInt8) : hasNestedOpen v = containsSub [91, 9
             exact (h1 cs2 hh.1.symm (by rw [hh.2])).elim
         simp [containsSub, this]
       · rename_i h; simp at h
+
+/-! ### numbers: hexadecimal / binary literals as written are Luau literals with the same value -/
+
+theorem mem_fmtHex (n : Nat) : ∀ c ∈ fmtHex n, ∃ k, k < 16 ∧ c = hexDigitByte k := by
+  induction n using Nat.strongRecOn with
+  | _ n ih =>
+    rw [fmtHex]
+    split
+    · rename_i h; intro c hc; simp at hc; exact ⟨n, h, hc⟩
+    · intro c hc
+      simp only [List.mem_append, List.mem_singleton] at hc
+      rcases hc with hc | hc
+      · exact ih (n / 16) (by omega) c hc
+      · exact ⟨n % 16, by omega, hc⟩
+
+theorem mem_fmtBin (n : Nat) : ∀ c ∈ fmtBin n, ∃ k, k < 2 ∧ c = UInt8.ofNat (48 + k) := by
+  induction n using Nat.strongRecOn with
+  | _ n ih =>
+    rw [fmtBin]
+    split
+    · rename_i h; intro c hc; exact ⟨n, h, List.mem_singleton.mp hc⟩
+    · intro c hc
+      simp only [List.mem_append, List.mem_singleton] at hc
+      rcases hc with hc | hc
+      · exact ih (n / 2) (by omega) c hc
+      · exact ⟨n % 2, by omega, hc⟩
+
+theorem digitsValue_append_single (base : Nat) (xs : List UInt8) (x : UInt8) :
+    digitsValue base (xs ++ [x]) = digitsValue base xs * base + (hexVal? x).getD 0 := by
+  simp [digitsValue, List.foldl_append]
+
+theorem digitsValue_fmtHex (n : Nat) : digitsValue 16 (fmtHex n) = n := by
+  induction n using Nat.strongRecOn with
+  | _ n ih =>
+    rw [fmtHex]
+    split
+    · rename_i h; simp [digitsValue, hexVal_hexDigitByte n h]
+    · rw [digitsValue_append_single, ih (n / 16) (by omega), hexVal_hexDigitByte _ (by omega)]
+      simp; omega
+
+theorem hexVal_binDigit : ∀ k, k < 2 → hexVal? (UInt8.ofNat (48 + k)) = some k := by decide
+
+theorem digitsValue_fmtBin (n : Nat) : digitsValue 2 (fmtBin n) = n := by
+  induction n using Nat.strongRecOn with
+  | _ n ih =>
+    rw [fmtBin]
+    split
+    · rename_i h
+      simp only [digitsValue, List.foldl]
+      rw [hexVal_binDigit n h]; simp
+    · rw [digitsValue_append_single, ih (n / 2) (by omega), hexVal_binDigit _ (by omega)]
+      simp; omega
+
+theorem fmtHex_ne_nil (n : Nat) : fmtHex n ≠ [] := by
+  intro h; have := fmtHex_length_pos n; rw [h] at this; simp at this
+
+theorem fmtBin_ne_nil (n : Nat) : fmtBin n ≠ [] := by
+  rw [fmtBin]; split <;> simp
+
+theorem takeWhile_all {p : UInt8 → Bool} (l : List UInt8) (h : ∀ x ∈ l, p x = true) :
+    l.takeWhile p = l := by
+  induction l with
+  | nil => rfl
+  | cons a l ih => simp [List.takeWhile, h a (by simp), ih (fun x hx => h x (by simp [hx]))]
+
+theorem filter_all {p : UInt8 → Bool} (l : List UInt8) (h : ∀ x ∈ l, p x = true) :
+    l.filter p = l := List.filter_eq_self.mpr h
+
+/-- a prefixed integer literal `0` `x|X|b|B` digits is one Luau number token -/
+theorem isNumberToken_prefixed (xch : UInt8) (ds : List UInt8)
+    (hx : xch = 120 ∨ xch = 88 ∨ xch = 98 ∨ xch = 66)
+    (hds : ∀ c ∈ ds, (isAlpha c || isDigit c || c == 95) = true) :
+    isNumberToken (48 :: xch :: ds) = true := by
+  have h1 : (isDigit xch || xch == 46 || xch == 95) = false := by
+    rcases hx with rfl | rfl | rfl | rfl <;> decide
+  have h2 : (xch == 101 || xch == 69) = false := by
+    rcases hx with rfl | rfl | rfl | rfl <;> decide
+  have h3 : (isAlpha xch || isDigit xch || xch == 95) = true := by
+    rcases hx with rfl | rfl | rfl | rfl <;> decide
+  have hrun2 : (xch :: ds).takeWhile (fun c => isAlpha c || isDigit c || c == 95) = xch :: ds :=
+    takeWhile_all _ (by intro c hc; simp at hc; rcases hc with rfl | hc; exact h3; exact hds c hc)
+  have hd48 : isDigit 48 = true := by decide
+  have hrun1 : (xch :: ds).takeWhile (fun c => isDigit c || c == 46 || c == 95) = [] := by
+    simp [List.takeWhile, h1]
+  simp only [isNumberToken, hd48, Bool.true_or, Bool.true_and, numberTokenLength, hrun1,
+    List.length_nil, List.drop_zero, h2, Bool.false_eq_true, if_false, hrun2]
+  simp
+  omega
+
+theorem hexDigit_props : ∀ k, k < 16 →
+    (isAlpha (hexDigitByte k) || isDigit (hexDigitByte k) || hexDigitByte k == 95) = true ∧
+    (hexDigitByte k != 95) = true ∧ ((hexVal? (hexDigitByte k)).any (· < 16)) = true := by decide
+
+theorem binDigit_props : ∀ k, k < 2 →
+    (isAlpha (UInt8.ofNat (48 + k)) || isDigit (UInt8.ofNat (48 + k)) || UInt8.ofNat (48 + k) == 95) = true ∧
+    (UInt8.ofNat (48 + k) != 95) = true ∧ ((hexVal? (UInt8.ofNat (48 + k))).any (· < 2)) = true := by decide
+
+theorem luauNumber_hex (n : Nat) (hn : n ≤ 18446744073709551615) (ux : Bool) :
+    luauNumber? ([48, if ux then 88 else 120] ++ fmtHex n) = some (.int n) := by
+  have hx : (if ux then (88 : UInt8) else 120) = 120 ∨ (if ux then (88 : UInt8) else 120) = 88 := by
+    cases ux <;> simp
+  generalize (if ux then (88 : UInt8) else 120) = xch at hx
+  have hprops : ∀ c ∈ fmtHex n, (isAlpha c || isDigit c || c == 95) = true ∧ (c != 95) = true ∧
+      ((hexVal? c).any (· < 16)) = true := by
+    intro c hc
+    obtain ⟨k, hk, rfl⟩ := mem_fmtHex n c hc
+    exact hexDigit_props k hk
+  have htok : isNumberToken (48 :: xch :: fmtHex n) = true :=
+    isNumberToken_prefixed xch _ (by rcases hx with h | h <;> simp [h]) (fun c hc => (hprops c hc).1)
+  have hx95 : (xch != 95) = true := by rcases hx with rfl | rfl <;> decide
+  have hfilter : (48 :: xch :: fmtHex n).filter (· != 95) = 48 :: xch :: fmtHex n :=
+    filter_all _ (by
+      intro c hc; simp at hc
+      rcases hc with rfl | rfl | hc
+      · decide
+      · exact hx95
+      · exact (hprops c hc).2.1)
+  have hxx : (xch == 120 || xch == 88) = true := by rcases hx with rfl | rfl <;> decide
+  have hall : (fmtHex n).all (fun c => (hexVal? c).any (· < 16)) = true :=
+    List.all_eq_true.mpr (fun c hc => (hprops c hc).2.2)
+  have hne : (fmtHex n).isEmpty = false := by
+    cases h : fmtHex n with
+    | nil => exact absurd h (fmtHex_ne_nil n)
+    | cons _ _ => rfl
+  show luauNumber? (48 :: xch :: fmtHex n) = some (.int n)
+  simp only [luauNumber?, htok, Bool.not_true, Bool.false_eq_true, if_false, hfilter, hxx, if_true,
+    strtoullAll, hne, hall, digitsValue_fmtHex, hn, Option.map_some]
+
+theorem luauNumber_bin (n : Nat) (hn : n ≤ 18446744073709551615) (ub : Bool) :
+    luauNumber? ([48, if ub then 66 else 98] ++ fmtBin n) = some (.int n) := by
+  have hx : (if ub then (66 : UInt8) else 98) = 98 ∨ (if ub then (66 : UInt8) else 98) = 66 := by
+    cases ub <;> simp
+  generalize (if ub then (66 : UInt8) else 98) = xch at hx
+  have hprops : ∀ c ∈ fmtBin n, (isAlpha c || isDigit c || c == 95) = true ∧ (c != 95) = true ∧
+      ((hexVal? c).any (· < 2)) = true := by
+    intro c hc
+    obtain ⟨k, hk, rfl⟩ := mem_fmtBin n c hc
+    exact binDigit_props k hk
+  have htok : isNumberToken (48 :: xch :: fmtBin n) = true :=
+    isNumberToken_prefixed xch _ (by rcases hx with h | h <;> simp [h]) (fun c hc => (hprops c hc).1)
+  have hx95 : (xch != 95) = true := by rcases hx with rfl | rfl <;> decide
+  have hfilter : (48 :: xch :: fmtBin n).filter (· != 95) = 48 :: xch :: fmtBin n :=
+    filter_all _ (by
+      intro c hc; simp at hc
+      rcases hc with rfl | rfl | hc
+      · decide
+      · exact hx95
+      · exact (hprops c hc).2.1)
+  have hxx : (xch == 120 || xch == 88) = false := by rcases hx with rfl | rfl <;> decide
+  have hbb : (xch == 98 || xch == 66) = true := by rcases hx with rfl | rfl <;> decide
+  have hall : (fmtBin n).all (fun c => (hexVal? c).any (· < 2)) = true :=
+    List.all_eq_true.mpr (fun c hc => (hprops c hc).2.2)
+  have hne : (fmtBin n).isEmpty = false := by
+    cases h : fmtBin n with
+    | nil => exact absurd h (fmtBin_ne_nil n)
+    | cons _ _ => rfl
+  show luauNumber? (48 :: xch :: fmtBin n) = some (.int n)
+  simp only [luauNumber?, htok, Bool.not_true, Bool.false_eq_true, if_false, hfilter, hxx, hbb, if_true,
+    strtoullAll, hne, hall, digitsValue_fmtBin, hn, Option.map_some]
+
+/-! ### the model parser's digit folding is the reference lexer's -/
+
+theorem toDigit_16 : ∀ c : UInt8, toDigit 16 c = (hexVal? c).filter (· < 16) := by
+  apply forall_uint8; decide +kernel
+
+theorem toDigit_2 : ∀ c : UInt8, toDigit 2 c = (hexVal? c).filter (· < 2) := by
+  apply forall_uint8; decide +kernel
+
+theorem foldDigits_eq (radix : Nat)
+    (htd : ∀ c : UInt8, toDigit radix c = (hexVal? c).filter (· < radix))
+    (ds : List UInt8) (hall : ds.all (fun c => (hexVal? c).any (· < radix)) = true) :
+    ∀ acc, foldDigits radix acc ds =
+      some (ds.foldl (fun acc c => acc * radix + (hexVal? c).getD 0) acc) := by
+  induction ds with
+  | nil => intro acc; rfl
+  | cons c cs ih =>
+    intro acc
+    simp only [List.all_cons, Bool.and_eq_true] at hall
+    obtain ⟨hc, hcs⟩ := hall
+    cases hv : hexVal? c with
+    | none => rw [hv] at hc; simp at hc
+    | some d =>
+      rw [hv] at hc
+      have hd : d < radix := by simpa using hc
+      simp only [foldDigits, htd c, hv, Option.filter, hd, decide_true, if_true, List.foldl,
+        Option.getD_some]
+      exact ih hcs _
+
+theorem parseUnsigned_eq_strtoull (radix : Nat)
+    (htd : ∀ c : UInt8, toDigit radix c = (hexVal? c).filter (· < radix)) (ds : List UInt8) :
+    (ds.all (fun c => (hexVal? c).any (· < radix)) = true) →
+    parseUnsigned radix 18446744073709551615 ds = strtoullAll radix ds := by
+  intro hall
+  cases ds with
+  | nil => rfl
+  | cons c cs =>
+    have h43 : hexVal? 43 = none := by decide
+    have hc43 : c ≠ 43 := by
+      intro h; subst h
+      simp only [List.all_cons, Bool.and_eq_true, h43] at hall
+      simp at hall
+    have hdigits : (match (c :: cs) with | 43 :: rest => rest | _ => c :: cs) = c :: cs := by
+      split
+      · rename_i h; simp at h; exact absurd h.1 hc43
+      · rfl
+    have hfold := foldDigits_eq radix htd (c :: cs) hall 0
+    simp only [parseUnsigned, hdigits, strtoullAll, List.isEmpty_cons, Bool.false_eq_true, if_false,
+      hall, if_true, hfold, digitsValue, Option.filter]
+    split <;> simp_all
